@@ -30,8 +30,28 @@ def drive_bin(flavour):
 _build_lock = threading.Lock()
 
 
+HARNESS_SRC = HARNESS
+if REPO != "/repo":
+    HARNESS = os.path.join(WORK, "harness-" + hashlib.sha1(REPO.encode()).hexdigest()[:10])
+
+
+def _alt_harness():
+    """For VERIF_REPO != /repo (self-tests against a scratch copy): a private copy of the harness
+    crate whose path dependency points at that copy."""
+    alt = HARNESS
+    os.makedirs(alt, exist_ok=True)
+    for name in ("src", ".cargo"):
+        shutil.rmtree(os.path.join(alt, name), ignore_errors=True)
+        shutil.copytree(os.path.join(HARNESS_SRC, name), os.path.join(alt, name))
+    shutil.copy(os.path.join(HARNESS_SRC, "Cargo.lock"), alt)
+    toml = open(os.path.join(HARNESS_SRC, "Cargo.toml")).read().replace('path = "/repo"', f'path = "{REPO}"')
+    open(os.path.join(alt, "Cargo.toml"), "w").write(toml)
+
+
 def build_harness(flavours):
     """Rebuild the harness (and therefore cacache from REPO's working tree) for each flavour."""
+    if REPO != "/repo":
+        _alt_harness()
     out = {}
     for fl in flavours:
         cmd = ["cargo", "build", "--offline", "--target-dir", os.path.join("target", fl)]
